@@ -97,10 +97,15 @@ def _history(cls_name, seed, nrounds, root, rounds=None) -> Dict[str, Any]:
     c0_rows = None
     for i, rd in enumerate(rec["rounds"]):
         states = crashlib.crash_states(cls_name, rd, i == 0)
-        if i > 0:
-            states = [{"label": "start", "state": rd["before"], "clean": True, "boundary": True}] + states if i == 1 else states
+        if i == 0:      # nothing on disk yet: the model's state 0
+            states = [{"label": "start", "state": {}, "clean": True, "boundary": True}] + states
+        other = "IH5Record" if mfm else "IH5MFRecord"
         per = []
         checked_alone = False
+        # torn positions around the class boundaries, for the reader of the other class
+        tl = [len(crashlib.written_bytes(rd["created"][crashlib.container_names(rd["created"])[-1]][:reclib.UB_SIZE])),
+              len(crashlib.written_bytes(rd["after"][crashlib.container_names(rd["after"])[-1]][:reclib.UB_SIZE]))]
+        xk = {1, 2, 12, 13, 14} | {t + dlt for t in tl for dlt in (-2, -1, 0)} | set(range(176, 182)) | set(range(210, 216))
         for cs in states:
             alone = bool(cs.get("boundary")) or not checked_alone
             checked_alone = True
@@ -111,9 +116,25 @@ def _history(cls_name, seed, nrounds, root, rounds=None) -> Dict[str, Any]:
             if o.get("class") == "timeout":
                 out["timeouts"] += 1
             na = crashlib.newest_abs(cs["state"])
+            # reader of the other record class, on the states that are not torn blocks and on a
+            # sample of the torn ones
+            xr = None
+            k = cs.get("k")
+            if k is None or k % 16 == 0 or k in xk:
+                x = crashlib.open_state(other, cs["state"], root, want_view=False)
+                if x["st"] == "refused":
+                    xr = ["refused", 0]
+                elif x["st"] == "open":
+                    xr = ["uncommitted" if x["hashes"][-1] is None else "committed", len(x["pids"])]
+                    if x["pids"][:len(committed)] != [c["pid"] for c in committed] or \
+                            len(x["pids"]) not in (len(committed), len(committed) + 1) or \
+                            any(h is None for h in x["hashes"][:-1]):
+                        o = {"ok": False, "why": f"reader {other}: opens as something that is neither the committed chain "
+                             f"nor one container more ({len(x['pids'])} for {len(committed)})", "class": "?"}
             per.append({"label": cs["label"], "class": o.get("class"), "n": o.get("n", 0), "nc": len(committed),
-                        "exc": o.get("exc_class"), "clean": cs["clean"],
-                        "newest": [na["ub"], names(na["dig"]), None if na["mf"] is None else [names(na["mf"][0]), names(na["mf"][1])]],
+                        "exc": o.get("exc_class"), "clean": cs["clean"], "x": xr,
+                        "newest": None if na["ub"] == "absent" else
+                        [na["ub"], names(na["dig"]), None if na["mf"] is None else [names(na["mf"][0]), names(na["mf"][1])]],
                         "unreadable_view": o.get("unreadable_view")})
             if not o["ok"] and len(out["violations"]) < 2:
                 out["violations"].append({
@@ -126,13 +147,18 @@ def _history(cls_name, seed, nrounds, root, rounds=None) -> Dict[str, Any]:
         newest = crashlib.container_names(after)[-1]
         committed = committed + [crashlib._committed_entry(after, newest, rd["view"])]
         blocks = rd["blocks"]
-        if i == 0:
-            c0_rows = [_row(_abs_file(after, newest), names)]
-            out["rounds"].append({"states": per, "model": None,
-                                  "torn": [[crashlib.pieces(blocks["zero"]), crashlib.pieces(blocks["w0"])],
-                                           [crashlib.pieces(blocks["old"]), crashlib.pieces(blocks["w1"])]]})
-            continue
+        c0_rows = []
         fin = _abs_file(after, newest)
+        # the encoder: fields of both blocks of the round, and the text the code wrote
+        encs = []
+        for blk in (blocks["w0"], blocks["w1"]):
+            pu = reclib.parse_ublock(blk + bytes(reclib.UB_SIZE - len(blk)))
+            assert pu["st"] == "ok", pu
+            f = pu["ub"]
+            ext = [] if f["ext"] is None else [[f["ext"]["stub"], f["ext"]["id"], f["ext"]["hash"]]]
+            encs.append([["enc", f["rec"], f["idx"], f["pid"], [] if f["prev"] is None else [f["prev"]],
+                          [] if f["hash"] is None else [f["hash"]], ext],
+                         blk[13:-1].decode("ascii")])
         created_dig = reclib.digest(rd["created"][newest][reclib.UB_SIZE:])
         ws = [names(reclib.digest(s[newest][reclib.UB_SIZE:])) for s in rd["writes"]]
         parts = []
@@ -145,10 +171,10 @@ def _history(cls_name, seed, nrounds, root, rounds=None) -> Dict[str, Any]:
                 except Exception:  # noqa: BLE001
                     mid = "?"
                 parts.append([names(mid), names(reclib.digest(part))])
-        mrow = [names(fin["pid"]), names(created_dig), "T1", ws, names(fin["dig"]), "T2",
+        mrow = [names(fin["rec"]), names(fin["pid"]), names(created_dig), "T1", ws, names(fin["dig"]), "T2",
                 names(fin["mf"][0]) if mfm else 0, names(fin["mf"][1]) if mfm else 0, parts]
         model_rounds.append(mrow)
-        out["rounds"].append({"states": per, "model": True,
+        out["rounds"].append({"states": per, "model": True, "enc": encs,
                               "torn": [[crashlib.pieces(blocks["zero"]), crashlib.pieces(blocks["w0"])],
                                        [crashlib.pieces(blocks["old"]), crashlib.pieces(blocks["w1"])]]})
     out["model_case"] = [mfm, c0_rows, model_rounds]
@@ -354,6 +380,17 @@ def analyse(ctx, res) -> Dict[str, Any]:
             if mc == "x" and real_loads:
                 disagreements.append({"what": "torn block the model rejects is loaded by the real code", "k": k,
                                       "write": wi, "model": mc, "real": s["class"], "cls": res[hi]["cls"]})
+    # ---- the encoder against every block met
+    enc_cases = [e[0] for r in res for rd in r["rounds"] for e in rd.get("enc", [])]
+    enc_want = [e[1] for r in res for rd in r["rounds"] for e in rd.get("enc", [])]
+    enc_got = vlib.run_model("c11", enc_cases)
+    enc_bad = 0
+    for c, w, g in zip(enc_cases, enc_want, enc_got):
+        if w != g:
+            enc_bad += 1
+            if enc_bad == 1:
+                disagreements.append({"what": "encode_ub differs from the text the code wrote", "fields": c[1:],
+                                      "model": g, "real": w})
     # ---- model pass 2: histories
     hist_cases, hist_ix = [], []
     for hi, r in enumerate(res):
@@ -371,16 +408,29 @@ def analyse(ctx, res) -> Dict[str, Any]:
             if "u" in t1 or "u" in t2:
                 ok = False
             row = list(mrs[mi])
-            row[2], row[5] = t1, t2
+            row[3], row[6] = t1, t2
             rounds.append(row)
             mi += 1
         if ok:
             hist_cases.append(["hist", mfm, c0, rounds])
             hist_ix.append(hi)
     hres = vlib.run_model("c11", hist_cases, chunk=1)
-    xc = vlib.coq_crosscheck("c11", [c for c in torn_cases[:2]] + hist_cases[:2],
-                             [t for t in tres[:2]] + hres[:2], "c11", max_cases=4)
+    # extraction cross-check inside coqc: torn blocks and the encoder as they are; histories
+    # cut down (two rounds, thinned tear lists) because the literals are large
+    small = []
+    for hc in hist_cases[:2]:
+        rs = []
+        for row in hc[3][:2]:
+            row = list(row)
+            row[3] = row[3][:3] + row[3][-3:]
+            row[6] = row[6][:2] + row[6][len(row[6]) // 2:len(row[6]) // 2 + 2] + row[6][-3:]
+            rs.append(row)
+        small.append(["hist", hc[1], hc[2], rs])
+    sres = vlib.run_model("c11", small)
+    xc = vlib.coq_crosscheck("c11", torn_cases[:2] + enc_cases[:2] + small,
+                             list(tres[:2]) + list(enc_got[:2]) + list(sres), "c11", max_cases=6)
     compared = 0
+    xcompared = 0
     unreadable_newest = 0
     by_label: Dict[str, Dict[str, int]] = {}
     for hi, m in zip(hist_ix, hres):
@@ -408,9 +458,15 @@ def analyse(ctx, res) -> Dict[str, Any]:
             if mnc not in (s["nc"], s["nc"] + 1):
                 disagreements.append({"what": "number of committed containers", "label": s["label"], "cls": r["cls"],
                                       "model": mnc, "real": s["nc"]})
-            want_new = [s["newest"][0], str(s["newest"][1]),
-                        [] if s["newest"][2] is None else [[str(s["newest"][2][0]), str(s["newest"][2][1])]]]
-            if s["newest"][0] != "unsure" and want_new != mnew:
+            if s["x"] is not None:
+                xcompared += 1
+                if [s["x"][0], str(s["x"][1])] != list(ms[4]):
+                    disagreements.append({"what": "class of the whole set for a reader of the other record class",
+                                          "label": s["label"], "writer": r["cls"], "model": ms[4], "real": s["x"]})
+            want_new = [] if s["newest"] is None else [
+                s["newest"][0], str(s["newest"][1]),
+                [] if s["newest"][2] is None else [[str(s["newest"][2][0]), str(s["newest"][2][1])]]]
+            if (s["newest"] is None or s["newest"][0] != "unsure") and want_new != mnew:
                 disagreements.append({"what": "abstraction of the newest container", "label": s["label"], "cls": r["cls"],
                                       "model": mnew, "real": want_new})
     # ---- reporting
@@ -421,9 +477,9 @@ def analyse(ctx, res) -> Dict[str, Any]:
         ctx.violation("model/implementation correspondence broken but the property oracle found no failing input: "
                       + disagreements[0]["what"],
                       {"kind": "correspondence",
-                       "correspondence": "coq/Rec/Crash.v (classify / round_steps / open_dir) vs IH5UserBlock.load/save, "
+                       "correspondence": "coq/Rec/Crash.v (classify / encode_ub / round_steps / open_dir) vs IH5UserBlock.load/save/json, "
                                          "IH5Record.create_patch/commit_patch, IH5MFRecord.commit_patch/_open; theorems "
-                                         "C11_classify_sound, C11_trichotomy",
+                                         "C11_classify_sound, C11_trichotomy, C11_trichotomy_cross, C11_commit_torn_classes_enc",
                        "smallest_disagreement": disagreements[0], "count": len(disagreements)}, found_input=False)
     elif disagreements:
         ctx.notes.append(f"{len(disagreements)} model/impl disagreements (first: {disagreements[0]})")
@@ -457,6 +513,8 @@ def analyse(ctx, res) -> Dict[str, Any]:
                                "torn_boundaries": sorted({(b[0], b[1], b[2], b[3]) for b in boundaries})[:40],
                                "outcome_by_state_kind": {k: v for k, v in sorted(by_label.items())}},
         "model_compared_states": compared, "model_histories": len(hist_cases),
+        "other_class_reader_compared": xcompared,
+        "encoder_blocks_compared": len(enc_cases), "encoder_blocks_equal": len(enc_cases) - enc_bad,
         "unreadable_newest_allowed": unreadable_newest,
         "torn_unclassified": unknown, "new_text_not_tight": not_tight, "commit_shape_side_condition_failed": shape_fail,
         "oracle_failures": n_viol, "disagreements": len(disagreements),
